@@ -403,9 +403,10 @@ MAIN_SPECS = {
     "udp_received__": {"props": ["C09"], "ret": "task",
         "contract": """    requires size <= buf@.len(),
     ensures
-        bmv(&task.1) == buf@.take(size as int), // [C09:the_task_for_a_datagram_is_given_exactly_the_octets_received]
-        task.3 == peer, // [C09:the_task_for_a_datagram_is_given_its_senders_address]
-        task.0 == args && task.2 == tx,""",
+        size >= 2 ==> task is Some, // [C09:every_datagram_that_can_hold_an_id_is_handed_to_a_task]
+        task is Some ==> bmv(&task->Some_0.1) == buf@.take(size as int), // [C09:the_task_for_a_datagram_is_given_exactly_the_octets_received]
+        task is Some ==> task->Some_0.3 == peer, // [C09:the_task_for_a_datagram_is_given_its_senders_address]
+        task is Some ==> task->Some_0.0 == args && task->Some_0.2 == tx,""",
         "forbid": [r"BytesMut::from\("],
         "entry": BU},
     "handle_raw_message": {"props": ["C09"],
@@ -491,9 +492,11 @@ fn shim_panic_incomplete() requires false, // [C09:server_never_panics_on_a_shor
             if depth == 0:
                 break
         e = txt.index(";", j) + 1
-        return txt[:k] + "\n" * txt[k:e].count("\n") + "(args, bytes, reply, peer)" + txt[e:], 1
-    ms["udp_received__"]["rewrites"] = [("R29", _r29), ("R42", r"BytesMut::from\((&\w+\[[^\]]*\])\)", r"shim_bytesmut_from_slice(\1)"), ("R53", _r53)]
-    G.block_fn(M, "listen_udp_task", r"Ok\(\(size, peer\)\) = socket\.recv_from\(&mut buf\) => \{", "fn udp_received__(args: ListenArgs, buf: Vec<u8>, size: usize, peer: SocketAddr, tx: ReplySender) -> (ListenArgs, BytesMut, ReplySender, SocketAddr)", "udp_received__", ms)
+        return txt[:k] + "\n" * txt[k:e].count("\n") + "Some((args, bytes, reply, peer))" + txt[e:], 1
+    ms["udp_received__"]["rewrites"] = [("R29", _r29), ("R42", r"BytesMut::from\((&\w+\[[^\]]*\])\)", r"shim_bytesmut_from_slice(\1)"), ("R53", _r53),
+        # R53: the arm sits in `loop { select! { .. } }`: a `continue` in it means that no task is spawned for this datagram
+        ("R53", r"\bcontinue;", "return None;")]
+    G.block_fn(M, "listen_udp_task", r"Ok\(\(size, peer\)\) = socket\.recv_from\(&mut buf\) => \{", "fn udp_received__(args: ListenArgs, buf: Vec<u8>, size: usize, peer: SocketAddr, tx: ReplySender) -> Option<(ListenArgs, BytesMut, ReplySender, SocketAddr)>", "udp_received__", ms)
     # R45: the block listen_udp_task hands to tokio::spawn for each datagram
     ms["udp_request__"]["rewrites"] = [("R29", r"let response_timer = DNS_RESPONSE_TIME_SECONDS\s*\.with_label_values\(&\[\"udp\"\]\)\s*\.start_timer\(\);", lambda m: "let response_timer = shim_start_timer();" + "\n" * m.group(0).count("\n")),
         ("R30", r"=> tracing::\w+!\((?:[^()]|\([^()]*\))*\)", "=> ()")]
